@@ -438,8 +438,8 @@ def classify(case: dict, res: dict) -> dict:
             kind = "slots-descriptor-default"
         elif exc == "UnserializableField" and "_default.<locals>.CC" in msg and last.get("tp_field_default"):
             kind = "default-ignores-field-strategy"
-        elif exc in ("NameError", "UnresolvedTypeReferenceError") and last.get("nt_fwd_default"):
-            kind = "default-forwardref-namedtuple"
+        elif exc == "NameError" and last.get("nt_fwd_default"):
+            kind = "default-over-string-annotated-namedtuple"
         elif exc == "ValueError" and msg.startswith("mutable default") and last.get("nt_mutable"):
             kind = "nt-mutable-default"
         elif exc in ("RecursionError", "CaseTimeout") and last.get("cyclic") and not last.get("field_strategy_unannotated") and not last.get("field_override_container"):
